@@ -881,6 +881,153 @@ def task_rigid(prop, part, nparts, tier, seed):
     return out
 
 
+def task_cb_equivariance(prop, seed):
+    """The clause of calcule_base's contract that C02 relies on, proved on the REAL function: for non-collinear points
+    (the branch the real code takes on p) and R in SO(3), t:  calcule_base(R p + t) = (R v1, R v2, R v3), and the second
+    run takes the same (non-collinear) branch.  Two symbolic runs of the real code in one context; scripted proof."""
+    import gaddlemaps._auxilliary as aux
+    tag = f"{prop}/calcule_base/equivariance"
+    so3 = spec.is_rotation_hyps(RM)
+    PP = [[z3.Real(f"p{k}_{i}") for i in range(3)] for k in range(3)]
+
+    def run(c):
+        pts = [S.vec(f"p{k}") for k in range(3)]
+        R = S.mat("R", 3, 3)
+        t = S.vec("t")
+        pts2 = [np.dot(R, p_) + t for p_ in pts]
+        (v1, v2, v3), o = aux.calcule_base(pts)
+        n1 = len(c.events)
+        (w1, w2, w3), o2 = aux.calcule_base(pts2)
+        return [S.terms(x) for x in (v1, v2, v3)], [S.terms(x) for x in (w1, w2, w3)], n1, [S.terms(x) for x in pts2]
+
+    pre = so3 + [z3.Or(*[PP[0][i] != PP[2][i] for i in range(3)])]
+    try:
+        with S.patched(aux, np=S.NumpyFacade()):
+            paths = S.explore(run, assumptions=pre, max_paths=64, feas_timeout_ms=1500)
+    except S.SymError as e:
+        return [ob(f"{tag}/symbolic-run", "undecided", engine="symrun", reason=str(e))]
+    out = [ob(f"{tag}/paths-enumerated", "discharged" if 1 <= len(paths) <= 40 else "undecided", engine="symrun", backend="explorer",
+              sample={"paths": len(paths)})]
+    cex = {"fn": "cb_equiv", "signature": "equivariance"}
+
+    def parts(evs):
+        sq = [e_ for e_ in evs if e_[0] == "sqrt"]
+        dv = [e_ for e_ in evs if e_[0] == "div"]
+        return dict(r1=sq[0][2], n3=sq[1][2], ne=sq[2][2], q1=[d_[3] for d_ in dv[:3]], q3=[d_[3] for d_ in dv[3:6]],
+                    r1arg=sq[0][1], n3arg=sq[1][1], nearg=sq[2][1], dv=dv)
+
+    n_generic = 0
+    for p_ in paths:
+        if p_.exc is not None or not p_.decisions or p_.decisions[0] is True:
+            continue            # first run collinear: outside the clause's precondition
+        V, W, n1, pts2 = p_.result
+        ev = p_.ctx.events
+        hy = p_.hyps()
+        A, B2 = parts(ev[:n1]), parts(ev[n1:])
+        ptag = "path[" + "".join("T" if x else "F" for x in p_.decisions) + "]"
+        d = spec.sub(PP[2], PP[0])
+        e = spec.sub(PP[1], PP[0])
+        d2 = spec.sub(pts2[2], pts2[0])
+        e2 = spec.sub(pts2[1], pts2[0])
+        G = {k: z3.Real("ghost_" + k) for k in ("d0", "d1", "c0", "c1", "e0", "e1")}
+        gdefs = {"d0": G["d0"] == A["r1arg"], "d1": G["d1"] == B2["r1arg"], "c0": G["c0"] == A["n3arg"], "c1": G["c1"] == B2["n3arg"],
+                 "e0": G["e0"] == A["nearg"], "e1": G["e1"] == B2["nearg"]}
+        pr = Proof(f"{tag}/{ptag}", hy + list(gdefs.values()), cex_builder=lambda m: cex, timeout_ms=8000)
+
+        def same_len(name, ra, rb, ka, kb, sq_equal_by, sq_goal_parts):
+            """rb == ra from rb^2 = G[kb], ra^2 = G[ka], G[kb] == G[ka]"""
+            ok = sq_equal_by()
+            pr.have(f"{name}/ra_sq", ra * ra == G[ka], by=[h for h in hy if str(ra) in core.free_consts(h)] + [gdefs[ka]], backends=("z3",))
+            pr.have(f"{name}/rb_sq", rb * rb == G[kb], by=[h for h in hy if str(rb) in core.free_consts(h)] + [gdefs[kb]], backends=("z3",))
+            return pr.have(f"{name}/same", rb == ra, by=[ra >= 0, rb >= 0], use=[f"{name}/sq_equal", f"{name}/ra_sq", f"{name}/rb_sq"],
+                           backends=("z3", "nlsat"))
+
+        # |d'|^2 = |d|^2 : d' is polynomially R d
+        def sq_d():
+            inst = spec.norm2(_rot(d)) == spec.norm2(d)
+            pr.have("r1/rot_norm", inst, by=so3, backends=("gb",))
+            return pr.have_cert("r1/sq_equal", G["d1"] == G["d0"], [(z3.RealVal(1), gdefs["d1"]), (z3.RealVal(1), inst), (z3.RealVal(-1), gdefs["d0"])])
+        same_len("r1", A["r1"], B2["r1"], "d0", "d1", sq_d, None)
+        lin = [A["q1"][k] * A["r1"] == d[k] for k in range(3)] + [B2["q1"][k] * B2["r1"] == d2[k] for k in range(3)]
+        pr.have("q1/definitions", z3.And(*lin), backends=("z3",))
+        pr.have("r1/nonzero", A["r1"] != 0, backends=("z3",))
+        q1rot = [B2["q1"][c] == spec.dot(RM[c], A["q1"]) for c in range(3)]
+        pr.have("q1/rotates", z3.And(*q1rot), by=lin, use=["r1/same", "r1/nonzero"], backends=("gb", "z3"))
+        # |e'|^2 = |e|^2
+        def sq_e():
+            inst = spec.norm2(_rot(e)) == spec.norm2(e)
+            pr.have("ne/rot_norm", inst, by=so3, backends=("gb",))
+            return pr.have_cert("ne/sq_equal", G["e1"] == G["e0"], [(z3.RealVal(1), gdefs["e1"]), (z3.RealVal(1), inst), (z3.RealVal(-1), gdefs["e0"])])
+        same_len("ne", A["ne"], B2["ne"], "e0", "e1", sq_e, None)
+        # c' = q1' x e' = R (q1 x e)   and   |c'|^2 = |c|^2
+        c1v = spec.cross(A["q1"], e)
+        c2v = spec.cross(B2["q1"], e2)
+        crot = [c2v[c] == spec.dot(RM[c], c1v) for c in range(3)]
+        pr.have("c/rotates", z3.And(*crot), by=so3, use=["q1/rotates"], backends=("gb",))
+
+        GX = [z3.Real(f"gen_x{k}") for k in range(3)]
+        pr.have_generic("lemma/rot_norm", spec.norm2(_rot(GX)) == spec.norm2(GX), by=so3, backends=("gb",))
+
+        def sq_c():
+            rc = _rot(c1v)
+            pr.have_instance("n3/rot_norm_instance", "lemma/rot_norm", list(zip(GX, c1v)))
+            inst = pr.facts.get("n3/rot_norm_instance")
+            if inst is None:
+                return False
+            # G_c1 - G_c0 = (G_c1 - |c'|^2) + sum_k (c'_k + (Rc)_k)(c'_k - (Rc)_k) + (|Rc|^2 - |c|^2) + (|c|^2 - G_c0)
+            pr.facts.update({f"c/rot[{k}]": crot[k] for k in range(3)} if "c/rotates" in pr.facts else {})
+            combos = [(z3.RealVal(1), gdefs["c1"]), (z3.RealVal(1), inst), (z3.RealVal(-1), gdefs["c0"])]
+            combos += [(c2v[k] + rc[k], crot[k]) for k in range(3)]
+            return pr.have_cert("n3/sq_equal", G["c1"] == G["c0"], combos)
+        same_len("n3", A["n3"], B2["n3"], "c0", "c1", sq_c, None)
+        generic2 = len(p_.decisions) == 2 and p_.decisions[1] is False
+        if not generic2:
+            # the second run claims to be collinear although the first is not: infeasible
+            okf = pr.have("second_run_takes_the_same_branch(path infeasible)", z3.BoolVal(False), by=list(p_.ctx.pc),
+                          use=["n3/same", "ne/same"], backends=("z3", "nlsat"))
+            out += pr.obs
+            continue
+        n_generic += 1
+        pr.have("n3/nonzero", A["n3"] != 0, by=list(p_.ctx.pc) + [A["ne"] >= 0, A["n3"] >= 0], backends=("z3",))
+        lin3 = [A["q3"][k] * A["n3"] == c1v[k] for k in range(3)] + [B2["q3"][k] * B2["n3"] == c2v[k] for k in range(3)]
+        pr.have("q3/definitions", z3.And(*lin3), backends=("z3",))
+        q3rot = [B2["q3"][c] == spec.dot(RM[c], A["q3"]) for c in range(3)]
+        # n3 * (q3'_c - (R q3)_c) == 0 by an explicit certificate, then cancel n3 != 0
+        okq3 = True
+        for c in range(3):
+            Xc = B2["q3"][c] - spec.dot(RM[c], A["q3"])
+            H1 = pr.facts.get("n3/same")
+            if H1 is None or "c/rotates" not in pr.facts:
+                okq3 = False
+                break
+            H2 = B2["q3"][c] * B2["n3"] == c2v[c]
+            H4 = [A["q3"][m_] * A["n3"] == c1v[m_] for m_ in range(3)]
+            combos = [(z3.RealVal(1), H2), (-B2["q3"][c], H1), (z3.RealVal(1), crot[c])] + [(-RM[c][m_], H4[m_]) for m_ in range(3)]
+            pr.facts.setdefault(f"c/rot[{c}]", crot[c])
+            pr.facts.setdefault(f"q3/def2[{c}]", H2)
+            for m_ in range(3):
+                pr.facts.setdefault(f"q3/def1[{m_}]", H4[m_])
+            okq3 = pr.have_cert(f"q3/n3_times_difference_is_zero[{c}]", A["n3"] * Xc == 0, combos) and okq3
+            Y = z3.Real(f"ghost_q3diff{c}")
+            okq3 = pr.have(f"q3/rotates[{c}]", Xc == 0, by=[A["n3"] * Xc == 0, A["n3"] != 0], backends=("z3", "nlsat")) and okq3
+        if okq3:
+            pr.have("q3/rotates", z3.And(*q3rot), by=[], use=[f"q3/rotates[{c}]" for c in range(3)], backends=("z3",))
+        # final: the three returned vectors
+        pr.have("ensures.first_vector_rotates", z3.And(*[W[0][c] == spec.dot(RM[c], V[0]) for c in range(3)]), by=[], use=["q1/rotates"],
+                backends=("z3", "gb"))
+        pr.have("ensures.third_vector_rotates", z3.And(*[W[2][c] == spec.dot(RM[c], V[2]) for c in range(3)]), by=[], use=["q3/rotates"],
+                backends=("z3", "gb"))
+        pr.have("ensures.second_vector_rotates", z3.And(*[W[1][c] == spec.dot(RM[c], V[1]) for c in range(3)]), by=so3,
+                use=["q1/rotates", "q3/rotates"], backends=("gb",))
+        out += pr.obs
+        m = core.get_model(hy, timeout_ms=5000)
+        out.append(ob(f"{tag}/{ptag}/guard.path-satisfiable", "discharged" if m is not None else "undecided", kind="guard", engine="symrun",
+                      backend="z3", expect="discharged"))
+    if n_generic != 1:
+        out.append(ob(f"{tag}/generic-path-found", "undecided", engine="symrun", reason=f"{n_generic} (generic, generic) paths"))
+    return out
+
+
 def task_history(prop, part, nparts, tier, seed):
     """C04 single-step obligation: from ANY prior content of the per-anchor frames (fresh junk symbols = any call history),
     __call__(arg) returns the value determined by the construction-time data and arg alone; frames of the argument,
@@ -1308,6 +1455,7 @@ def tasks(prop, tier, seed):
         for p in range(nparts):
             t.append((f"rigid/part{p}", task_rigid, (prop, p, nparts, tier, seed), 1500.0))
         t.append(("numeric", task_numeric_generic, (prop, tier, seed), 900.0))
+        t.append(("calcule_base/equivariance", task_cb_equivariance, (prop, seed), 900.0))
     if prop == "C04":
         nparts = 12 if tier == "quick" else 48
         for p in range(nparts):
